@@ -443,11 +443,13 @@ Proof.
       - rewrite Em3. apply nohash_eolpm. exact Hm1.
       - congruence.
       - exists ((seg ++ [10%N]) :: c0), L, sL, bufL, sl1, accl1, rL, dL.
-        split; [rewrite Hc0; reflexivity|]. split; [|exact Hci].
-        simpl concat. rewrite rrun_app.
-        assert (Ecat2 : concat c0 ++ L ++ concat rl' = concat rest).
-        { rewrite Hc0, concat_app. simpl. reflexivity. }
-        rewrite Ecat2, Er1. exact Hrr. }
+        split; [rewrite Hc0; reflexivity|]. split.
+        + simpl concat. rewrite rrun_app.
+          assert (Ecat2 : concat c0 ++ L ++ concat rl' = concat rest).
+          { rewrite Hc0, concat_app. simpl. reflexivity. }
+          rewrite Ecat2, Er1. exact Hrr.
+        + destruct Hci as (Y1 & Y2 & Y3 & Y4 & Y5 & Yrest).
+          repeat (split; [assumption|]). split; [constructor; assumption|]. exact Yrest. }
     rewrite Hunf in Hrm.
     destruct (may_stop o s2) eqn:Ems.
     + destruct ((0 <=? s_first s2) && lastIsKw (o_v1cxx o) (buf ++ rev acc1) (s_first s2) (s_last s2)) eqn:Ekw.
@@ -515,6 +517,6 @@ Lemma keyword_continuation inp allc v1 cs stt :
   bare_hash RCode inp = false -> read_stream allc v1 (split_nl inp) = (cs, stt) -> cuts (no_kw_cut v1) inp cs.
 Proof.
   intros HB E. destruct (split_nl_spec inp) as (A & B & C).
-  unfold read_stream in E. rewrite <- B at 2.
-  eapply read_all_kw; eauto. rewrite B. exact HB.
+  unfold read_stream in E. rewrite <- B.
+  eapply (read_all_kw v1 _ (split_nl inp)); [| exact A | rewrite B; exact HB | exact E]. lia.
 Qed.
